@@ -94,6 +94,9 @@ pub fn check_nothing_sent_twice(w: &World) -> Result<(), Failure> {
 pub fn check_race(c: &RaceCase) -> CheckResult {
     let n = c.replicas as usize;
     let mut w = World::new(n);
+    for r in &mut w.realizers {
+        r.stale_old = true;
+    }
     let mut rep = CaseReport::default();
     let mut flags = RunFlags::default();
     run_actions(&mut w, &c.prior, &mut rep, &mut flags)?;
